@@ -282,6 +282,7 @@ func (x *Exec) Start(name, dir string, port int, mod func(o *Options)) *Inst {
 	if mod != nil {
 		mod(&in.opts)
 	}
+	in.Addr = fmt.Sprintf("%s:%d", in.opts.Host, in.opts.Port)
 	ncap := len(vsched.Captured)
 	vsched.GoGroup(name, name+":serve", func() {
 		in.err = Serve(in.opts)
